@@ -153,7 +153,7 @@ Proof. vm_compute. discriminate. Qed.
 
 (* an accepted document is never nested deeper than the limit: the decoder's recursion is bounded *)
 Lemma accepted_nesting_bounded w n k : run_nesting [w; n; k] = [1] -> nesting_levels w n <= max_nesting.
-Proof. cbn [run_nesting]. destruct (Z.leb_spec (nesting_levels w n) max_nesting); [auto|discriminate]. Qed.
+Proof. cbn [run_nesting]. destruct (w >=? 3); [discriminate|]. destruct (Z.leb_spec (nesting_levels w n) max_nesting); [auto|discriminate]. Qed.
 
 Lemma net_nesting_bounded n t : run_net_nesting [n; t] = [1] -> nesting_levels 0 n <= max_nesting.
 Proof.
